@@ -182,6 +182,21 @@ def run(repo: Repo, rep: Report, tier: str) -> None:
             and len(rets) == 1 and isinstance(rets[0].value, ast.Tuple) and norm(rets[0].value.elts[0]) == pv
         )
     rep.check(ok, "wire-match", "dul.DULServiceProvider._decode_pdu", "EVT_DATA_RECV(bytes read) ; pdu.decode(bytes) ; EVT_PDU_RECV(pdu) ; return pdu", "the received notifications must carry the bytes just read and the PDU decoded from exactly those bytes, and that PDU is the one handed on", mod=dul, node=dp)
+    if len(decs) == 1 and len(tpr) == 1:
+        # nothing that can fail may sit between decoding a PDU and announcing it: a PDU that crossed the
+        # wire and is then classified as invalid was still received
+        body = body_nodoc(dp)
+        d_st, t_st = enclosing(decs[0], (ast.stmt,)), enclosing(tpr[0], (ast.stmt,))
+        between = []
+        if d_st in body and t_st in body and body.index(d_st) < body.index(t_st):
+            between = [x for x in body[body.index(d_st) + 1 : body.index(t_st)] if any(isinstance(c, (ast.Call, ast.Subscript, ast.Raise)) for c in ast.walk(x))]
+            okb = not between
+        else:
+            okb = False
+        rep.check(okb, "wire-match", "dul.DULServiceProvider._decode_pdu", between[0] if between else "EVT_PDU_RECV right after pdu.decode()", "a statement that can raise runs between decoding the PDU and announcing it (e.g. the conversion check): a PDU that crossed the wire but is then judged invalid is acted on (Evt19, abort) without ever being notified as received", mod=dul, node=between[0] if between else dp)
+    # likewise the raw bytes are announced before decoding can fail
+    if len(tdr) == 1 and len(decs) == 1:
+        rep.check(tdr[0].lineno < decs[0].lineno, "wire-match", "dul.DULServiceProvider._decode_pdu", "EVT_DATA_RECV before pdu.decode()", "the received bytes must be announced even when they cannot be decoded", mod=dul, node=tdr[0])
     rd = repo.func("dul", "DULServiceProvider._read_pdu_data")
     dc = [c for c in walk_no_nested(rd) if isinstance(c, ast.Call) and norm(c.func) == "self._decode_pdu"]
     ok = len(dc) == 1 and norm(dc[0].args[0]) == "bytestream" and any(norm(s) == "self._recv_pdu.put(pdu)" for s in walk_no_nested(rd) if isinstance(s, ast.stmt))
